@@ -22,11 +22,43 @@ histories recorded from the real code, with `order` = the order of the hook's st
 namespace Cppcms.C09
 open Cppcms Cppcms.C07
 
+/-! ### the sequential object: C07's cache plus the intrusive reference count
+
+`mem_cache` is handed around as `booster::intrusive_ptr<base_cache>`: copying a handle calls
+`add_ref()`, dropping one calls `del_ref()` and deletes the object when that returns `true`.
+`refs` is shared state like the indexes; the two functions are operations like the others. -/
+
+inductive XOp
+  | cache (op : Op)
+  | addRef
+  | delRef
+deriving DecidableEq, Repr
+
+inductive XOut
+  | cache (o : Out)
+  | added
+  /-- `del_ref()` returned `last`: `true` = the caller must delete the object -/
+  | dropped (last : Bool)
+deriving DecidableEq, Repr
+
+structure XState where
+  cache : State
+  /-- `int refs` -/
+  refs : Int := 0
+deriving Repr
+
+def xstep (s : XState) : XOp → XState × XOut
+  | .cache op => ({ s with cache := (step s.cache op).1 }, .cache (step s.cache op).2)
+  | .addRef => ({ s with refs := s.refs + 1 }, .added)
+  | .delRef => ({ s with refs := s.refs - 1 }, .dropped (decide (s.refs - 1 = 0)))
+
+def xrun (s : XState) (ops : List XOp) : XState := ops.foldl (fun s op => (xstep s op).1) s
+
 /-- what a call returned: an answer of the sequential vocabulary, or `undefined` — the model's
 marker for "read through an iterator whose element is gone" / "no result was produced" (the real
 code would exhibit undefined behaviour there) -/
 inductive Ret
-  | ok (o : Out)
+  | ok (o : XOut)
   | undefined
 deriving DecidableEq, Repr
 
@@ -34,7 +66,7 @@ deriving DecidableEq, Repr
 structure Rec where
   tid : Nat
   idx : Nat
-  op : Op
+  op : XOp
   inv : Nat
   resp : Option (Nat × Ret) := none
 deriving DecidableEq, Repr
@@ -44,15 +76,15 @@ the answer the sequential specification gives at that point -/
 structure Lin where
   tid : Nat
   idx : Nat
-  op : Op
+  op : XOp
   stamp : Nat
-  out : Out
+  out : XOut
 deriving DecidableEq, Repr
 
 /-- answers of the sequential execution of `ops` from `s` -/
-def seqOuts (s : State) : List Op → List Out
+def seqOuts (s : XState) : List XOp → List XOut
   | [] => []
-  | op :: ops => (step s op).2 :: seqOuts (step s op).1 ops
+  | op :: ops => (xstep s op).2 :: seqOuts (xstep s op).1 ops
 
 /-- every completed record appears in `order` with the answer it returned -/
 def CompleteIn (order : List Lin) (r : Rec) : Prop :=
@@ -67,7 +99,7 @@ def RealTimeOk (recs : List Rec) (a b : Lin) : Prop :=
     | none => True
     | some (t, _) => ¬ t < ra.inv
 
-structure LinearizedBy (s₀ : State) (recs : List Rec) (order : List Lin) : Prop where
+structure LinearizedBy (s₀ : XState) (recs : List Rec) (order : List Lin) : Prop where
   /-- every operation occurs at most once -/
   nodup : (order.map fun e => (e.tid, e.idx)).Nodup
   /-- every completed operation is in the order, and returned the claimed answer -/
@@ -80,7 +112,7 @@ structure LinearizedBy (s₀ : State) (recs : List Rec) (order : List Lin) : Pro
   realtime : order.Pairwise (RealTimeOk recs)
 
 /-- the history is linearizable w.r.t. the sequential cache started in `s₀` -/
-def Linearizable (s₀ : State) (recs : List Rec) : Prop := ∃ order, LinearizedBy s₀ recs order
+def Linearizable (s₀ : XState) (recs : List Rec) : Prop := ∃ order, LinearizedBy s₀ recs order
 
 /-- histories are well formed: an operation id names one record -/
 def WellFormed (recs : List Rec) : Prop := (recs.map fun r => (r.tid, r.idx)).Nodup
@@ -109,7 +141,7 @@ def nodupB {α : Type} [BEq α] : List α → Bool
   | a :: l => !l.contains a && nodupB l
 
 /-- which clause of `LinearizedBy` fails first (`none` = all hold) -/
-def checkLin (s₀ : State) (recs : List Rec) (order : List Lin) : Option String :=
+def checkLin (s₀ : XState) (recs : List Rec) (order : List Lin) : Option String :=
   if !nodupB (order.map fun e => (e.tid, e.idx)) then some "operation-linearized-twice"
   else if !recs.all (completeInB order) then some "completed-operation-missing-or-wrong-answer"
   else if !order.all (fun e => recs.any fun r => r.tid == e.tid && r.idx == e.idx && r.op == e.op) then some "unknown-operation-in-order"
